@@ -40,7 +40,7 @@ func (sc *SyncClock) LocalTime() time.Time {
 
 // Decode .
 func (sc *SyncClock) Decode(data []byte) (ok bool) {
-	if data[1] == 200 {
+	if len(data) >= 20 && data[1] == 200 {
 		msw := binary.BigEndian.Uint32(data[8:])
 		lsw := binary.BigEndian.Uint32(data[12:])
 		sc.RTPTime = binary.BigEndian.Uint32(data[16:])
